@@ -438,7 +438,14 @@ impl DocumentInline {
             DocumentInline::SoftBreak(_) => GraphInline::SoftBreak,
             DocumentInline::LineBreak(_) => GraphInline::LineBreak,
             DocumentInline::Link(link) => GraphInline::Link(
-                link.target.url.clone(), // relative path
+                // links to notes are kept as library keys: the url is resolved against
+                // the directory of the note it is written in (and written back relative
+                // to it by the projector)
+                if crate::model::is_ref_url(&link.target.url) {
+                    crate::model::Key::from_rel_link_url(&link.target.url, relative_to).to_string()
+                } else {
+                    link.target.url.clone()
+                },
                 link.target.title.clone(),
                 link.link_type,
                 link.inlines
